@@ -23,7 +23,7 @@
    Deviations = {}      the intended design: all seven invariants hold
    Deviations = AsBuilt the code as built (each deviation is named and located in
                         MemWalOps.tla); TLC shows which invariants it breaks       *)
-EXTENDS MemWalOps, Json
+EXTENDS MemWalOps, Json, SequencesExt
 
 CONSTANTS Regions,      \* region names
           MaxGen,       \* generations are 0..MaxGen
@@ -110,11 +110,8 @@ CallsK(V, h, k) ==
 (***************************************************************************)
 \* returns the new history and the result class
 Exec(vs, rv, op) ==
-  LET b == BuildOp(Deviations, vs[rv], op)
-      t == [b.txn EXCEPT !.rv = rv]
-      res == IF b.pre # "ok" THEN b.pre ELSE Outcome(Deviations, t, vs)
-  IN [res |-> res,
-      vs |-> IF res = "ok" THEN Append(vs, NewVersion(vs[Len(vs)], t, Len(vs) + 1)) ELSE vs]
+  LET p == Predict(Deviations, vs, rv, CallOf(op)) IN
+  [res |-> p.res, vs |-> IF p.res = "ok" THEN Append(vs, p.ver) ELSE vs]
 
 (***************************************************************************)
 (* Prefixes: sequential histories by writer "m" that build the initial     *)
@@ -172,7 +169,7 @@ PrefixStep ==
 Checkout(h, v) ==
   /\ todo = <<>>
   /\ "checkout" \in OpKinds /\ nops < MaxOps
-  /\ v \in 1..NV /\ hv[h] # v
+  /\ v \in 2..NV /\ hv[h] # v        \* (version 1 is the table before any MemWAL index: nothing to read there)
   /\ hv' = [hv EXCEPT ![h] = v]
   /\ lastRes' = "ok"
   /\ nops' = nops + 1
@@ -204,7 +201,7 @@ TableAppend == CallKind("tappend")
 
 Next ==
   \/ PrefixStep
-  \/ \E h \in Handles, v \in 1..(NV) : Checkout(h, v)
+  \/ \E h \in Handles, v \in 2..NV : Checkout(h, v)
   \/ Advance \/ AppendEntry \/ Seal \/ Flush \/ MarkMerged \/ ChangeOwner \/ Trim \/ MergeInsertMerged \/ TableAppend
 
 Spec == Init /\ [][Next]_vars
@@ -230,8 +227,8 @@ TypeOK == /\ NV >= 1
           /\ \A h \in Handles : hv[h] \in 1..NV
           /\ \A k \in 1..NV : \A e \in SeqSet(vers[k].list) : e.st \in Open..Merged /\ e.g \in 0..MaxGen
 
-\* Scenario export: every maximal history is printed once (GEN configurations), together with the
-\* invariants that the model's own history breaks somewhere (empty for the intended design)
-BrokenSeq == SelectSeq(InvNames, LAMBDA nm : \E k \in 1..NV : ~Holds(nm, vers, k))
-GenPrint == (nops = MaxOps /\ todo = <<>>) => PrintT(<<"SCN", ToJson([hist |-> hist, broken |-> BrokenSeq])>>)
+\* Scenario export: every maximal history is printed once (GEN configurations), together with the finding
+\* signatures <<invariant, deviations>> of the model's own history (none for the intended design)
+GenPrint == (nops = MaxOps /\ todo = <<>>) =>
+              PrintT(<<"SCN", ToJson([hist |-> hist, sigs |-> SetToSeq(SigsOf(vers))])>>)
 =============================================================================
